@@ -14,6 +14,7 @@ def run(tier, seed):
     chk.leg("trace validation (Layer A judge)", events=n + n2,
             inputs="pk: all-00, all-FF, t1 = 1023 everywhere, single-bit walks, random strings; sk: generated keys re-serialised twice; derived keys")
     common.nohooks_leg(chk, "roundtrip", profile="checked", nrandom=16)
+    common.crossset_leg(chk, bindir, rounds=2 if tier == "quick" else 12)
     common.mc_leg(chk, "MC_API", tier=tier)
     # the same serialisation invariant (one string per lineage, injective) without bounds: TLAPS
     common.tlaps_leg(chk)
